@@ -218,6 +218,12 @@ func generateKey(doc core.Doc, keyFields []mapper.Field) string {
 	keyBuilder := strings.Builder{}
 	for _, keyField := range keyFields {
 		keyBuilder.WriteString(fmt.Sprint(keyField.Index))
+		if s, ok := doc.Fields[keyField.Index].(string); ok {
+			// quoted, so that a string can neither read like a value of another kind (nil is
+			// rendered as <nil>) nor run into the key of the next field
+			keyBuilder.WriteString(fmt.Sprintf("_%q_", s))
+			continue
+		}
 		keyBuilder.WriteString(fmt.Sprintf("_%v_", doc.Fields[keyField.Index]))
 	}
 	return keyBuilder.String()
